@@ -291,12 +291,12 @@ func (w *ccWorld) errCount(id uint32) int {
 	return n
 }
 
-func ceAfter(evs []c07Event, name string, id uint32) bool {
+func ceAfter(evs []c07Event, name string, id uint32, connID uint32) bool {
 	seen := false
 	for _, e := range evs {
 		if e.Name == name && e.ID == id {
 			seen = true
-		} else if seen && e.Name == ptCE {
+		} else if seen && e.Name == ptCE && e.ID == connID {
 			return true
 		}
 	}
@@ -335,7 +335,7 @@ func (w *ccWorld) readerDone(t *ccThread) {
 				close(t.done)
 				return
 			}
-		case registered && ceAfter(evs, ptInNewEx, t.id) && o.Inbound <= t.inBase:
+		case registered && ceAfter(evs, ptInNewEx, t.id, w.connID) && o.Inbound <= t.inBase:
 			// re-check branch: exchange removed again, checkExchanges entered (answered or not)
 			wait := 1500 * time.Microsecond
 			if !gotErr && o.State != 4 {
@@ -530,7 +530,7 @@ func (w *ccWorld) opFinIn(id uint32, mask int64) bool {
 	for {
 		n := 0
 		for _, e := range w.ctl.events(from) {
-			if e.Name == ptCE {
+			if e.Name == ptCE && e.ID == w.connID {
 				n++
 			}
 		}
@@ -599,9 +599,13 @@ func (w *ccWorld) opFinOut(id uint32, mask int64) bool {
 }
 
 func (w *ccWorld) opRelayAdmit(id uint32) bool {
+	before := w.state()
 	t := w.spawn(8, id, 1, false)
 	_, adm := tchannel.VerifC07RelayAdmit(w.conn)
 	t.admitted = adm
+	if adm && before != 1 {
+		w.fail(fmt.Sprintf("a relayed call was admitted (pending incremented) on a connection that had left Active (state %d)", before))
+	}
 	code := int64(0)
 	if adm {
 		code = 6
@@ -756,6 +760,10 @@ func (w *ccWorld) cleanup() {
 	w.hs.mu.Unlock()
 	w.peer.conn.Close()
 	w.ch.Close()
+	select {
+	case <-w.ch.ClosedChan():
+	case <-time.After(300 * time.Millisecond):
+	}
 	w.ctl.close()
 }
 
@@ -982,6 +990,9 @@ func (w *ccWorld) finish(rng *rand.Rand, complete bool) bool {
 func engineConnClose(rng *rand.Rand, n int, tier string, o *Out) {
 	infeasible := 0
 	for c := 0; c < n; c++ {
+		if o.fails >= 8 || infeasible >= 12 { // a broken implementation is established: do not wait for hundreds of timeouts
+			break
+		}
 		relay := rng.Intn(4) == 0
 		steps := 3 + rng.Intn(8)
 		pPark := []float64{0.0, 0.5, 0.8}[rng.Intn(3)]
@@ -1049,7 +1060,7 @@ func engineConnClose(rng *rand.Rand, n int, tier string, o *Out) {
 		o.Case("connclose", id, in, w.obs, len(labels) > 2, verdict)
 		w.cleanup()
 	}
-	if infeasible*5 > n && n >= 10 {
+	if (infeasible*5 > n && n >= 10) || infeasible >= 12 {
 		o.Oracle("connclose", "infeasible", false, "infeasible", fmt.Sprintf("harness: %d of %d schedules could not be followed by the implementation", infeasible, n))
 	}
 }
